@@ -18,6 +18,7 @@ PY
 (cd /repo && CARGO_TARGET_DIR=/verif/.cache/target-bins RUSTFLAGS="--cfg rustfmt_verif" cargo build --offline --bins 2>&1 | tail -2)
 # 4. the frozen reference harness (pinned sources under /verif/frozen; C09)
 (cd harness_frozen && CARGO_TARGET_DIR=/verif/.cache/target-frozen cargo build --offline 2>&1 | tail -2)
+(cd frozen && CARGO_TARGET_DIR=/verif/.cache/target-frozen cargo build --offline --bin rustfmt 2>&1 | tail -2)
 # 5. the extracted C01 validator (coq/C01/Extract.v wrote ocaml/c01/norm.ml during step 1)
 sh ocaml/c01/build.sh | tail -1
 echo setup done
